@@ -923,6 +923,8 @@ class ImageBatch(DataTensor):
             raise ValueError(
                 f"{type(self).__name__}.sample() 'arg' must be one or {len(self)} grids"
             )
+        if len(arg) == 1:
+            arg = tuple(arg) * len(self)
         if all(grid == g for grid, g in zip_longest_repeat_last(arg, self._grid)):
             return self
         axes = Axes.from_align_corners(align_corners)
